@@ -9,7 +9,7 @@
 # local the code no longer has).
 # usage: harmless.sh [id ...]; exit 1 if a change makes a check alarm.
 cd /verif
-ids="$@"; [ -z "$ids" ] && ids=$(ls harmless | sort)
+ids="$@"; [ -z "$ids" ] && ids=$(cd harmless && ls -d */ | tr -d / | sort)
 if [ -n "$(git -C /repo status --porcelain)" ]; then echo "/repo working tree is not clean"; exit 2; fi
 trap 'git -C /repo checkout -- . 2>/dev/null; git -C /repo clean -fdq path 2>/dev/null' EXIT
 bad=0
